@@ -35,6 +35,12 @@ items += [
     {'file': PARSING, 'item': "impl AnnotatedLexer<'_> :: fn peek_any", 'wrap': "impl AnnotatedLexer<'_>", 'fn': 'peek_any', 'attrs': 'drop', 'ret': 'r',
      'rewrites': [('lit', 'item.clone()', 'verif_clone_item(item)', 1)],
      'ensures': [('stream', 'final(self).lexer.remaining() == old(self).lexer.remaining() && (if old(self).lexer.remaining().len() == 0 { r is Err } else { r == old(self).lexer.remaining()[0] })')]},
+    {'file': PARSING, 'item': "impl AnnotatedLexer<'_> :: fn peek_lparen", 'wrap': "impl AnnotatedLexer<'_>", 'fn': 'peek_lparen', 'attrs': 'drop', 'ret': 'r',
+     'rewrites': [('lit', 'item.clone()', 'verif_clone_item(item)', 1)],
+     'ensures': [('stream', 'final(self).lexer.remaining() == old(self).lexer.remaining() && (if old(self).lexer.remaining().len() == 0 { r matches Ok(b) && !b } else { match old(self).lexer.remaining()[0] { Ok(t) => r matches Ok(b) && (b <==> t.s_type() is LParen), Err(_) => r is Err } })')]},
+    {'file': PARSING, 'item': "impl AnnotatedLexer<'_> :: fn peek_reg", 'wrap': "impl AnnotatedLexer<'_>", 'fn': 'peek_reg', 'attrs': 'drop', 'ret': 'r',
+     'rewrites': [('lit', 'item.clone()', 'verif_clone_item(item)', 1)],
+     'ensures': [('stream', 'final(self).lexer.remaining() == old(self).lexer.remaining() && (if old(self).lexer.remaining().len() == 0 { r matches Ok(o) && o is None } else { match old(self).lexer.remaining()[0] { Ok(t) => r matches Ok(o) && (match o { Some(w) => reg_of(t) == Some(w.sdata()) && w.stoken() == t, None => reg_of(t) is None }), Err(_) => r is Err } })')]},
     {'file': PARSING, 'item': "impl AnnotatedLexer<'_> :: fn get_reg", 'wrap': "impl AnnotatedLexer<'_>", 'fn': 'get_reg', 'attrs': 'drop', 'ret': 'r',
      'ensures': [('stream', 'took_reg(old(self).lexer.remaining(), final(self).lexer.remaining(), r)')]},
     {'file': PARSING, 'item': "impl AnnotatedLexer<'_> :: fn get_imm", 'wrap': "impl AnnotatedLexer<'_>", 'fn': 'get_imm', 'attrs': 'drop', 'ret': 'r',
